@@ -34,10 +34,12 @@ use datafusion_common::{
 use datafusion_expr::expr::{Exists, InSubquery};
 use datafusion_expr::expr_rewriter::create_col_from_scalar_expr;
 use datafusion_expr::logical_plan::{JoinType, Subquery};
-use datafusion_expr::utils::{conjunction, expr_to_columns, split_conjunction_owned};
+use datafusion_expr::utils::{
+    conjunction, expr_to_columns, split_conjunction, split_conjunction_owned,
+};
 use datafusion_expr::{
-    BinaryExpr, Expr, Filter, LogicalPlan, LogicalPlanBuilder, Operator, exists,
-    in_subquery, lit, not, not_exists, not_in_subquery,
+    BinaryExpr, Expr, ExprSchemable, Filter, LogicalPlan, LogicalPlanBuilder, Operator,
+    exists, in_subquery, lit, not, not_exists, not_in_subquery,
 };
 
 use log::debug;
@@ -334,6 +336,23 @@ fn join_keys_may_be_null(
     // Extract columns from the join filter
     let mut columns = std::collections::HashSet::new();
     expr_to_columns(join_filter, &mut columns)?;
+
+    // An expression over non-nullable columns can still evaluate to NULL (e.g. a
+    // `CASE` without `ELSE`), so check the compared expressions themselves too.
+    for conjunct in split_conjunction(join_filter) {
+        if let Expr::BinaryExpr(BinaryExpr {
+            left,
+            op: Operator::Eq,
+            right,
+        }) = conjunct
+        {
+            for (expr, schema) in [(left, left_schema), (right, right_schema)] {
+                if let Ok(true) = expr.nullable(schema.as_ref()) {
+                    return Ok(true);
+                }
+            }
+        }
+    }
 
     // Check if any column is nullable
     for col in columns {
